@@ -118,7 +118,10 @@ class TalesExpr:
         assignments = []
 
         while remaining:
-            if self.ignore_prefix and match_prefix(remaining) is not None:
+            # A Python expression may itself begin with a name and a
+            # colon: ``lambda: ...`` is not an expression type
+            m = match_prefix(remaining) if self.ignore_prefix else None
+            if m is not None and m.group(1) != "lambda":
                 compiler = engine.parse(remaining)
                 assignment = compiler.assign_value(target)
                 remaining = ""
